@@ -18,14 +18,19 @@
 (*               input is called "input<k-1>"),                            *)
 (*    args   |-> <<item>>, kwargs |-> << <<key, item>> >>]                 *)
 (* item = [t |-> "int", i |-> n] | [t |-> "str", s |-> string]             *)
+(*      | [t |-> "none"] (None) | [t |-> "bool", i |-> 0 or 1]             *)
 (*      | [t |-> "in", i |-> k]   (the name of the k-th input)             *)
 (* Values are rendered as strings on both sides: a call of node j is       *)
 (* "nj(arg,...){key=arg,...}", the i-th yielded value is that \o "#i".     *)
+(* The recording callables have distinctive defaults for every parameter,  *)
+(* so the observed call lists exactly the arguments that were passed: a    *)
+(* dropped, defaulted, added or moved argument changes the string.         *)
 (***************************************************************************)
 EXTENDS Naturals, Sequences, FiniteSets, TLC, Json, IOUtils, SequencesExt
 
 CONSTANTS MaxN,       \* nodes per graph in the argument-binding part of the domain
           MaxIn,      \* inputs per node
+          FullStaticsN, \* graphs with <= FullStaticsN nodes get every static value of Statics
           GenOuts     \* output counts of the generator in the output-binding part, e.g. {2, 3, 10, 11, 12}
 
 SetOf(s) == {s[i] : i \in DOMAIN s}
@@ -34,18 +39,26 @@ SetOf(s) == {s[i] : i \in DOMAIN s}
 InA(k)  == [t |-> "in",  i |-> k, s |-> ""]
 IntA(v) == [t |-> "int", i |-> v, s |-> ""]
 StrA(x) == [t |-> "str", i |-> 0, s |-> x]
+NoneA   == [t |-> "none", i |-> 0, s |-> ""]                  \* Python None (JSON has no null for TLC)
+BoolA(b) == [t |-> "bool", i |-> IF b THEN 1 ELSE 0, s |-> ""]
+\* static values: an ordinary one, and the falsy ones (0, "", False, None) that a careless test for "no value" confuses
+Statics == {IntA(7), IntA(0), StrA(""), StrA("s"), NoneA, BoolA(FALSE)}
+FewStatics == {IntA(7), NoneA}
 \* how a node with k inputs mentions them among its positional arguments (inputs not mentioned are appended by fluent.Node);
-\* static strings equal to input names that the node does not have must stay static
-Args(st, k) ==
+\* v fills the static positions: first, between inputs, after an input name, LAST (once and twice); static strings equal to
+\* input names that the node does not have must stay static
+Args(st, k, v) ==
   CASE st = 1 -> <<>>
-    [] st = 2 -> <<IntA(7)>>
-    [] st = 3 -> IF k = 0 THEN <<StrA("input0")>> ELSE IF k = 1 THEN <<InA(1), StrA("input1")>> ELSE <<InA(1), InA(2), IntA(7)>>
-    [] st = 4 -> IF k = 0 THEN <<IntA(7), StrA("s")>> ELSE IF k = 1 THEN <<StrA("input1"), InA(1)>> ELSE <<InA(2), IntA(7), InA(1)>>
-    [] st = 5 -> IF k = 0 THEN <<StrA("input1"), IntA(7)>> ELSE IF k = 1 THEN <<IntA(7), InA(1), IntA(8)>> ELSE <<InA(2)>>
-Kwargs(st) == IF st % 2 = 1 THEN <<>> ELSE <<<<"k", IntA(5)>>, <<"z", StrA("s")>>>>
+    [] st = 2 -> <<v>>
+    [] st = 3 -> IF k = 0 THEN <<StrA("input0"), v>> ELSE IF k = 1 THEN <<InA(1), v>> ELSE <<InA(1), InA(2), v>>
+    [] st = 4 -> IF k = 0 THEN <<IntA(7), v>> ELSE IF k = 1 THEN <<StrA("input1"), InA(1), v>> ELSE <<InA(2), v, InA(1)>>
+    [] st = 5 -> IF k = 0 THEN <<v, v>> ELSE IF k = 1 THEN <<v, InA(1), IntA(8)>> ELSE <<InA(2), v>>
+    [] st = 6 -> IF k = 0 THEN <<v, IntA(7), v>> ELSE IF k = 1 THEN <<InA(1), v, v>> ELSE <<InA(2), InA(1), v, v>>
+Kwargs(st, v) == IF st % 2 = 1 THEN <<>> ELSE <<<<"k", v>>, <<"z", StrA("s")>>>>
 Coords(n) == [i \in 1..n |-> "c" \o ToString(i - 1)]
-MkNode(nout, yields, ins, st) == [nout |-> nout, yields |-> yields, coords |-> Coords(nout), inputs |-> ins,
-                                  args |-> Args(st, Len(ins)), kwargs |-> Kwargs(st)]
+MkNodeV(nout, yields, ins, st, v) == [nout |-> nout, yields |-> yields, coords |-> Coords(nout), inputs |-> ins,
+                                      args |-> Args(st, Len(ins), v), kwargs |-> Kwargs(st, v)]
+MkNode(nout, yields, ins, st) == MkNodeV(nout, yields, ins, st, IntA(7))
 
 \* (1) argument binding: every DAG with <= MaxN nodes, the first and the last node with one or two outputs
 Srcs(j, nouts) == {<<i, o>> \in (1..(j - 1)) \X (0..1) : o < nouts[i]}
@@ -53,8 +66,11 @@ InSeqs(j, nouts) == UNION {[1..m -> Srcs(j, nouts)] : m \in 0..MaxIn}
 RECURSIVE InsUpTo(_, _)
 InsUpTo(j, nouts) == IF j = 0 THEN {<<>>} ELSE {Append(p, s) : p \in InsUpTo(j - 1, nouts), s \in InSeqs(j, nouts)}
 NOuts(n) == {f \in [1..n -> 1..2] : \A j \in 1..n : (1 < j /\ j < n) => f[j] = 1}
-BindCases == UNION {UNION {{[nodes |-> [j \in 1..n |-> MkNode(nouts[j], nouts[j], ins[j], st)]] :
-                              ins \in InsUpTo(n, nouts), st \in 1..5} : nouts \in NOuts(n)} : n \in 1..MaxN}
+\* every static value for graphs with <= FullStaticsN nodes, an ordinary one and None up to 3 nodes, None above
+StaticsFor(n) == IF n <= FullStaticsN THEN Statics ELSE IF n <= 3 THEN FewStatics ELSE {NoneA}
+BindCases == UNION {UNION {{[nodes |-> [j \in 1..n |-> MkNodeV(nouts[j], nouts[j], ins[j], st, v)]] :
+                              ins \in InsUpTo(n, nouts), st \in 1..6, v \in StaticsFor(n)} :
+                           nouts \in NOuts(n)} : n \in 1..MaxN}
 
 \* (2) output binding: a generator g with N outputs (optionally fed by a source) yielding N - 1, N or N + 1 values,
 \*     and, when the count is right, no consumer / a consumer of one output / a consumer of two outputs
@@ -81,6 +97,8 @@ RECURSIVE CallStr(_, _)
 OutStr(c, p, o) == IF c.nodes[p].nout = 1 THEN CallStr(c, p) ELSE CallStr(c, p) \o "#" \o ToString(o)
 Render(c, j, a) == IF a.t = "int" THEN ToString(a.i)
                    ELSE IF a.t = "str" THEN "'" \o a.s \o "'"
+                   ELSE IF a.t = "none" THEN "None"
+                   ELSE IF a.t = "bool" THEN (IF a.i = 1 THEN "True" ELSE "False")
                    ELSE OutStr(c, c.nodes[j].inputs[a.i][1], c.nodes[j].inputs[a.i][2])
 CallStr(c, j) == LET nd == c.nodes[j]
                      F == FinalArgs(nd)
